@@ -149,6 +149,15 @@ func (P *Program) verifyFunc(fn *ssa.Function, fc *FuncContract, mode Mode) *Fun
 	for _, m := range fc.Modifies {
 		fr.modObjs = append(fr.modObjs, env.modItems(m)...)
 	}
+	for _, tn := range strings.Split(fc.Opts["noframe"]+","+fc.Opts["havoc"], ",") {
+		if tn = strings.TrimSpace(tn); tn != "" {
+			if te, err := parseTypeExpr(tn); err == nil {
+				if t := c.resolveType(te, pkg); t != nil {
+					fr.modObjs = append(fr.modObjs, modItem{sortKey: c.sortOf(t), all: true})
+				}
+			}
+		}
+	}
 	// vacuity probe: the precondition must be satisfiable
 	c.obls = append(c.obls, &Obligation{Name: res.Func + "/vacuity[requires]", Kind: "vacuity", Props: fc.Props, Text: "precondition and type invariants are satisfiable", Func: res.Func, prefix: len(c.cmds), goal: "true", ctx: c, Vacuity: true})
 
